@@ -157,3 +157,127 @@ def levenshtein(s, t):
             cur[j] = min(prev[j] + 1, cur[j - 1] + 1, prev[j - 1] + (si != t[j - 1]))
         prev = cur
     return prev[n]
+
+
+# --------------------------------------------------------------------------- genotyping HMM
+
+def phred_error(q):
+    return 0.9999 if q == 0 else 10 ** (-q / 10.0)
+
+
+class GenotypeHMM:
+    """Plain forward-backward summation of the genotyping HMM (states: read bipartition,
+    transmission value, allele assignment). For every global bipartition B the per-column weights
+    M[c][t] = sum_a prior_c(t, a) * emit_c(B, t, a) and their split by (individual, genotype) are
+    chained by the row-normalised Bernoulli transition r^k (1-r)^(2T-k), r = 10^(-recomb/10); the
+    start distribution is uniform. posterior = ratio of sums."""
+
+    def __init__(self, inst):
+        self.inst = inst
+        self.n_ind = inst["n_ind"]
+        self.trios = [tuple(t) for t in inst["trios"]]
+        self.nt = len(self.trios)
+        self.T = 4 ** self.nt
+        self.maps = [partitions_map(self.n_ind, self.trios, t) for t in range(self.T)]
+        self.P = self.maps[0][1]
+        self.ncols = inst["ncols"]
+        self.active = [[] for _ in range(self.ncols)]
+        for r, rd in enumerate(inst["reads"]):
+            for col, al, w in rd["vars"]:
+                self.active[col].append((r, rd["ind"], al, w))
+        self._prior = {}
+        self._col = {}
+
+    def prior(self, c, t):
+        key = (c, t)
+        if key in self._prior:
+            return self._prior[key]
+        hp, P = self.maps[t]
+        w = {}
+        gv = {}
+        cnt = {}
+        for a in range(1 << P):
+            g = tuple(((a >> hp[i][0]) & 1) + ((a >> hp[i][1]) & 1) for i in range(self.n_ind))
+            p = 1.0
+            for i in range(self.n_ind):
+                p *= self.inst["gl"][i][c][g[i]]
+            w[a] = p
+            gv[a] = g
+            cnt[g] = cnt.get(g, 0) + 1
+        for a in w:
+            w[a] /= cnt[gv[a]]
+        s = sum(w.values())
+        res = ({a: w[a] / s for a in w} if s > 0 else dict(w), gv)
+        self._prior[key] = res
+        return res
+
+    def column(self, c, t, bits):
+        key = (c, t, bits)
+        hit = self._col.get(key)
+        if hit is not None:
+            return hit
+        hp, P = self.maps[t]
+        pr, gv = self.prior(c, t)
+        M = 0.0
+        G = [[0.0, 0.0, 0.0] for _ in range(self.n_ind)]
+        for a, pa in pr.items():
+            e = pa
+            for (r, ind, al, q), side in zip(self.active[c], bits):
+                err = phred_error(q)
+                e *= (1 - err) if ((a >> hp[ind][side]) & 1) == al else err
+            M += e
+            g = gv[a]
+            for i in range(self.n_ind):
+                G[i][g[i]] += e
+        res = (M, G)
+        self._col[key] = res
+        return res
+
+    def trans(self, c):
+        r = 10 ** (-self.inst["recomb"][c] / 10.0)
+        T = self.T
+        rows = []
+        for u in range(T):
+            row = [r ** bin(u ^ t).count("1") * (1 - r) ** (2 * self.nt - bin(u ^ t).count("1")) for t in range(T)]
+            s = sum(row)
+            rows.append([x / s for x in row])
+        return rows
+
+    def posterior(self):
+        n = len(self.inst["reads"])
+        C, T, N = self.ncols, self.T, self.n_ind
+        post = [[[0.0] * 3 for _ in range(C)] for _ in range(N)]
+        Z = 0.0
+        tr = [None] + [self.trans(c) for c in range(1, C)]
+        for B in itertools.product((0, 1), repeat=n):
+            cols = []
+            for c in range(C):
+                bits = tuple(B[r] for r, _, _, _ in self.active[c])
+                cols.append([self.column(c, t, bits) for t in range(T)])
+            fw = [[0.0] * T for _ in range(C)]
+            bw = [[0.0] * T for _ in range(C)]
+            for t in range(T):
+                fw[0][t] = cols[0][t][0]
+            for c in range(1, C):
+                for t in range(T):
+                    fw[c][t] = sum(fw[c - 1][u] * tr[c][u][t] for u in range(T)) * cols[c][t][0]
+            for t in range(T):
+                bw[C - 1][t] = 1.0
+            for c in range(C - 2, -1, -1):
+                for u in range(T):
+                    bw[c][u] = sum(tr[c + 1][u][t] * cols[c + 1][t][0] * bw[c + 1][t] for t in range(T))
+            Z += sum(fw[C - 1])
+            for c in range(C):
+                for t in range(T):
+                    M, G = cols[c][t]
+                    if M == 0:
+                        continue
+                    pre = fw[c][t] / M * bw[c][t]
+                    if pre == 0:
+                        continue
+                    for i in range(N):
+                        for g in range(3):
+                            post[i][c][g] += pre * G[i][g]
+        if Z == 0:
+            return None
+        return [[[x / Z for x in post[i][c]] for c in range(C)] for i in range(N)]
